@@ -430,7 +430,7 @@ def check_partial(rec, rng, cid, tmpdir, counter):
     of the two): accepted, the own function is used, the missing one gets the
     documented default wrapper"""
     from nanite import model
-    for own in ("model", "residual", "both", "neither"):
+    for own in ("model", "residual", "both", "neither", "no-compute-anc"):
         for as_file in (False, True):
             counter[0] += 1
             key = "hm_part_%s_%d_%d_%d" % (own, cid[0], cid[1], counter[0])
@@ -439,6 +439,10 @@ def check_partial(rec, rng, cid, tmpdir, counter):
                 src += OWN_MODEL
             if own in ("residual", "both"):
                 src += OWN_RESIDUAL
+            if own == "no-compute-anc":
+                # the lists that describe ancillaries are there, the function
+                # that computes them is not: a model without own ancillaries
+                src += "\ndel compute_ancillaries\n"
             case = {"id": cid, "kind": "partial-module", "own": own,
                     "as_file": as_file}
             rec.event("modules with own model / residual offered")
@@ -472,6 +476,19 @@ def check_partial(rec, rng, cid, tmpdir, counter):
                           "model() of a module with own %s does not evaluate "
                           "%s" % (own, "its own function" if sig else
                                   "the default wrapper"), case)
+                if own == "no-compute-anc":
+                    common = model.models_available[
+                        "hertz_para"].get_anc_parm_keys()
+                    rec.check(list(md.get_anc_parm_keys()) == list(common),
+                              "partial-module/no-compute-anc/ancillary-keys",
+                              "a module without compute_ancillaries reports "
+                              "the ancillary keys %s (common keys: %s)"
+                              % (md.get_anc_parm_keys(), common), case)
+                    spec_ = fitlab.draw_curve_spec(
+                        rng, models=["hertz_para"], npts=(150,),
+                        noise_snr=(50,), with_tip=True)
+                    ic, _ = fitlab.build_curve(spec_)
+                    ic.get_initial_fit_parameters(model_key=key)
                 force = want + 1e-10
                 r = md.residual(par, x, force, 5e-7)
                 if own in ("residual", "both"):
